@@ -40,8 +40,8 @@ summary = ('%d seeded changes have been confirmed so far (rounds of '
            'sub-agents, two changes each, per claimed property); %d were '
            'caught by the check as it stood when the change arrived, %d '
            'were missed and are caught since the check was strengthened, '
-           'and %d are not caught because they were judged to fall outside '
-           'the property (reasons in the table); the %d others are all '
+           'and %d not caught because judged to fall outside '
+           'the property (reason in the table); the %d others are all '
            'caught by the current quick tier (`selftest/run_mutants.py`).'
            % (len(rows), len(rows) - missed - oos, missed, oos,
               len(rows) - oos))
